@@ -610,6 +610,11 @@ fn spawn_async_ao_list_in_task'''),
         ('hook-runs-before-dispatch-too', 'brush-core/src/commands.rs', "        // We still haven't found a command to invoke. We'll need to look for an external command.\n", "        if let Some(post_execute) = self.post_execute {\n            let _ = post_execute(&mut self.shell);\n        }\n"),
         ('unwrap-of-unchecked-builtin', 'brush-core/src/commands.rs', "        if self.shell.options().posix_mode\n            && builtin\n                .as_ref()\n                .is_some_and(|r| !r.disabled && r.special_builtin)\n        {", "        if self.shell.options().posix_mode {"),
     ],
+    'U15b': [
+        ('duplicates-of-the-std-streams-are-not-injected', 'brush-core/src/commands.rs', "    let other_files = context.iter_fds().filter(|(fd, _)| {\n        *fd != OpenFiles::STDIN_FD && *fd != OpenFiles::STDOUT_FD && *fd != OpenFiles::STDERR_FD\n    });", "    let other_files = context.iter_fds().filter(|(fd, file)| {\n        *fd > OpenFiles::STDERR_FD\n            && !matches!(\n                file,\n                OpenFile::Stdin(_) | OpenFile::Stdout(_) | OpenFile::Stderr(_)\n            )\n    });"),
+        ('stderr-entry-goes-to-the-stdout-slot', 'brush-core/src/commands.rs', "            let as_stdio: Stdio = stderr_file.try_into()?;\n            cmd.stderr(as_stdio);", "            let as_stdio: Stdio = stderr_file.try_into()?;\n            cmd.stdout(as_stdio);"),
+        ('stdout-slot-left-alone-when-it-holds-the-shells-stderr', 'brush-core/src/commands.rs', "        Some(OpenFile::Stdout(_)) | None => (),", "        Some(OpenFile::Stdout(_) | OpenFile::Stderr(_)) | None => (),"),
+    ],
     'U15c': [
         ('output-and-error-accepts-zero-fields', 'brush-core/src/interp.rs', "            if expanded_fields.len() != 1 {\n                return Err(error::ErrorKind::InvalidRedirection.into());\n            }\n\n            let expanded_file_path = expanded_fields.remove(0);", "            if expanded_fields.len() > 1 {\n                return Err(error::ErrorKind::InvalidRedirection.into());\n            }\n\n            let expanded_file_path = expanded_fields.remove(0);"),
         ('file-target-takes-the-first-of-several-words', 'brush-core/src/interp.rs', "                    if expanded_fields.len() != 1 {\n                        return Err(error::ErrorKind::InvalidRedirection.into());\n                    }\n\n                    let expanded_file_path: PathBuf =", "                    if expanded_fields.is_empty() {\n                        return Err(error::ErrorKind::InvalidRedirection.into());\n                    }\n\n                    let expanded_file_path: PathBuf ="),
